@@ -1484,3 +1484,35 @@ m('G3-failed-registration-rolled-back-blindly', 'C12', 'G3', 'register_pytree_no
                 pass
             raise
         _NODETYPE_REGISTRY[registration_key] = PyTreeNodeRegistryEntry(""")
+m('W1-reorder-skipped-when-the-first-two-children-have-one-size', 'C07', 'W1', 'IsPrefix/reorder-whenever-the-key-orders-differ', 'src/treespec/richcomparison.cpp',
+  """                if (expected_keys.not_equal(other_keys)) [[unlikely]] {""",
+  """                if (expected_keys.not_equal(other_keys) &&
+                    (b->arity < 2 || (b + 1)->num_nodes != (b + 1 + (b + 1)->num_nodes)->num_nodes))
+                    [[unlikely]] {""")
+m('T2-mixed-str-keys-sent-to-the-fallback-unsorted', 'C02', 'T2', 'TotalOrderSort/plain-sort-always-attempted', 'include/optree/pytypes.h',
+  """        // Sort directly if possible.
+""",
+  """        if (PyList_GET_SIZE(list.ptr()) > 1 &&
+            Py_TYPE(PyList_GET_ITEM(list.ptr(), 0)) != Py_TYPE(PyList_GET_ITEM(list.ptr(), 1))) {
+            PyErr_SetString(PyExc_TypeError, "keys of different types");
+            throw py::error_already_set();
+        }
+        // Sort directly if possible.
+""")
+m('NS1-unpickle-looks-the-type-up-globally-first', 'C11', 'NS1', 'FromPickleable/lambda', 'src/treespec/serialization.cpp',
+  """                if (none_is_leaf) [[unlikely]] {
+                    node.custom =
+                        PyTreeTypeRegistry::Lookup<NONE_IS_LEAF>(t[4], registry_namespace);
+                } else [[likely]] {
+                    node.custom =
+                        PyTreeTypeRegistry::Lookup<NONE_IS_NODE>(t[4], registry_namespace);
+                }""",
+  """                const py::object cls = t[4];
+                const auto lookup = [&cls, none_is_leaf](const std::string& ns) {
+                    return none_is_leaf ? PyTreeTypeRegistry::Lookup<NONE_IS_LEAF>(cls, ns)
+                                        : PyTreeTypeRegistry::Lookup<NONE_IS_NODE>(cls, ns);
+                };
+                node.custom = lookup("");
+                if (node.custom == nullptr && !registry_namespace.empty()) {
+                    node.custom = lookup(registry_namespace);
+                }""")
